@@ -39,3 +39,35 @@ run_main_test() {
   prep_modfiles; main_overlay
   (cd $REPO && go test -modfile="$W/repo.mod" -overlay "$W/main-overlay.json" -tags verif -vet=off -count=1 -run "^$1\$" . > "$W/main-test.log" 2>&1) || { cat "$W/main-test.log" >&2; echo "HARNESS-ERROR: in-package test $1 failed" >&2; exit 2; }
 }
+
+# build_instr_tool : the AST instrumenter (own module, needs golang.org/x/tools from the module cache)
+build_instr_tool() {
+  (cd /verif/instr && go build -o "$W/instr" .) || { echo "HARNESS-ERROR: build of the instrumenter failed" >&2; exit 2; }
+}
+
+# instr_overlay <name> [-tick] pkgs... : instrument the CURRENT sources of the packages, write $W/<name>-overlay.json
+instr_overlay() {
+  local name=$1; shift
+  local tick=""
+  if [ "$1" = "-tick" ]; then tick="-tick"; shift; fi
+  prep_modfiles
+  [ -x "$W/instr" ] || build_instr_tool
+  mkdir -p "$W/$name"
+  "$W/instr" $tick -repo "$REPO" -modfile "$W/repo.mod" -out "$W/$name" "$@" > "$W/$name/map.txt" || { echo "HARNESS-ERROR: instrumenting failed (construct the instrumenter does not understand?)" >&2; exit 2; }
+  python3 - "$W/$name/map.txt" "$REPO" "$ENGINE" > "$W/$name-overlay.json" <<'PY'
+import sys, json
+rep = {}
+for l in open(sys.argv[1]):
+    a, b = l.rstrip("\n").split("\t")
+    rep[a] = b
+repo, eng = sys.argv[2], sys.argv[3]
+rep[repo + "/zzverif/vsrt/vsrt.go"] = eng + "/overlay/vsrt.go.src"
+rep[repo + "/zzverif/vsync/vsync.go"] = eng + "/overlay/vsync.go.src"
+print(json.dumps({"Replace": rep}))
+PY
+}
+
+# build_instr <cmd> <overlay> <out-name> : engine binary against the instrumented sources
+build_instr() {
+  (cd $ENGINE && go build -modfile="$W/engine.mod" -overlay "$2" -tags "verif instr" -o "$W/$3" ./cmd/$1) || { echo "HARNESS-ERROR: instrumented build of $1 failed" >&2; exit 2; }
+}
